@@ -114,7 +114,7 @@ def ref_reject(c):
 def gen_reject(rng, ctx, k):
     nd = 1 if rng.random() < 0.8 else rng.choice([2, 3])
     if nd == 1:
-        shape = [rng.choice([1, 2, 3, 4, 5, 6, 7, 8, 9, 10, 12])]
+        shape = [rng.choice([1, 2, 3, 4, 5, 6, 7, 8, 9, 10, 12, 12, 20, 33])]
     else:
         shape = [rng.randint(1, 3) for _ in range(nd)]
     n = 1
@@ -242,7 +242,7 @@ def gen_mask_line(rng, L):
 def gen_interp(rng, ctx, k):
     nd = rng.choice([1, 1, 2, 2, 3])
     if nd == 1:
-        shape = [rng.randint(1, 10)]
+        shape = [rng.choice([1, 2, 3, 4, 5, 6, 7, 8, 9, 10, 17, 24])]
     elif nd == 2:
         shape = [rng.randint(1, 6), rng.randint(1, 6)]
     else:
@@ -350,7 +350,7 @@ BITSETS = [(27, 28), (3, 14), (31, 63)]
 def gen_sky(rng, ctx, k, bits):
     dtype = rng.choice(['int16', 'int32', 'int32', 'int64', 'uint64'])
     w, signed = DT[dtype]
-    nrows, npix = rng.randint(1, 3), rng.choice([1, 2, 3, 4, 5, 6, 8, 10, 12])
+    nrows, npix = rng.randint(1, 3), rng.choice([1, 2, 3, 4, 5, 6, 8, 10, 12, 12, 25, 40])
     lo, hi = (-(1 << (w - 1)), (1 << (w - 1)) - 1) if signed else (0, (1 << w) - 1)
     fl = [1 << b for b in bits if b < w] or [0]
     other = [1 << b for b in range(w) if b not in bits]
@@ -409,7 +409,7 @@ def signature(c, r, verdict):
     what = 'property' if verdict & 2 else 'model'
     if f == 'reject':
         g = c['grow']
-        cls = 'grow=%s' % ('0' if g == 0 else ('1' if g == 1 else '>=2'))
+        cls = 'grow=0' if g == 0 else ('grow=1' if g == 1 else 'grow>=2')
     elif f == 'interp':
         cls = 'xval' if c['xval'] is not None else 'index'
     elif f == 'aesth':
@@ -427,7 +427,8 @@ def public(c):
 
 
 def size_of(c):
-    return sum(len(v) for v in c.values() if isinstance(v, list))
+    """rank used to choose the representative failing input: int32 masks (what spPlate stores) first, then small"""
+    return (0 if c.get('dtype', 'int32') == 'int32' else 1, sum(len(v) for v in c.values() if isinstance(v, list)))
 
 
 def correspond(ctx, proof_ok=True):
@@ -467,6 +468,10 @@ def correspond(ctx, proof_ok=True):
     ctx.coverage['pydl_file'] = outs[0]['pydl_file']
     ctx.coverage['numpy'] = outs[0]['numpy']
     ctx.coverage['flag_values'] = {str(k): v for k, v in flags_of.items()}
+    # the harness's cutting of n-D arrays into lines must be numpy's own (moveaxis) cutting
+    for (bi, c), r in zip(calls, results):
+        if c['f'] == 'interp' and 'np_lines' in r and sorted(map(tuple, r['np_lines'])) != sorted(map(tuple, c['_lines'])):
+            raise RuntimeError('harness lines_of disagrees with numpy.moveaxis for shape %s' % c['shape'])
     for bits, fl in flags_of.items():
         if fl != [1 << bits[0], 1 << bits[1]]:
             ctx.violation('C17:skymask:flagval', 'sdss_flagval does not return 2^bit for SPPIXMASK bits %s: %s' % (bits, fl),
